@@ -89,7 +89,7 @@ TECH_PATHS = "bounded symbolic execution of the compiled Rust code, path by path
 
 CLAIMS.update({
     "C16": {
-        "text": "Decides for inputs `prefix ++ s` - a concrete prefix that puts the tokenizer into one of 28 of its states (data, data after a comment, bogus comment `<?` and `</ `, markup declaration `<!-` / `<!a`, comment with 0-3 trailing dashes and after `--!`, DOCTYPE partial and complete, CDATA partial / open / one or two closing brackets, double-quoted attribute value, and in fragment context: script data plain / after `<` / escape start / double-escaped / double-escaped dash / double-escaped `<`, title, style, plaintext) followed by ALL byte strings s of length 1-4 (36 registered (state, length) instances) - that tokenisation never panics (all of Kani's checks on), ends within |input|+1 tokens, every non-final token consumes at least one byte, raw spans are contiguous from offset 0 and inside the buffer (raw spans + unread remainder reproduce the input), and data spans are ordered sub-ranges of the buffer that fall on char boundaries whenever the input is valid UTF-8 (so the slices text()/tag_name() take cannot panic and their from_utf8 cannot fail). The failing inputs of this family (a `--!>` right after `<!--`) are isolated byte values in a particular state, which sampling finds only by luck.",
+        "text": "Decides for inputs `prefix ++ s` - a concrete prefix that puts the tokenizer into one of 28 of its states (data, data after a comment, bogus comment `<?` and `</ `, markup declaration `<!-` / `<!a`, comment with 0-3 trailing dashes and after `--!`, DOCTYPE partial and complete, CDATA partial / open / one or two closing brackets, double-quoted attribute value, and in fragment context: script data plain / after `<` / escape start / double-escaped / double-escaped dash / double-escaped `<`, title, style, plaintext) followed by ALL byte strings s of length 1-4 (42 registered (state, length) instances; tag open `<`, end tag open `</`, `<a/`, a single-quoted attribute value and a multi-byte character in progress with one symbolic byte) - that tokenisation never panics (all of Kani's checks on), ends within |input|+1 tokens, every non-final token consumes at least one byte, raw spans are contiguous from offset 0 and inside the buffer (raw spans + unread remainder reproduce the input), and data spans are ordered sub-ranges of the buffer that fall on char boundaries whenever the input is valid UTF-8 (so the slices text()/tag_name() take cannot panic and their from_utf8 cannot fail). The failing inputs of this family (a `--!>` right after `<!--`) are isolated byte values in a particular state, which sampling finds only by luck.",
         "note": "Bounded: 1-3 symbolic bytes after each concrete prefix; inputs that do not start with one of the prefixes are outside the claim, as are tag_attr()/token()/text() themselves (text() is covered through its slice bounds only). Path-wise symbolic execution explores infeasible paths too (CBMC does not prune them), so the cost grows with the number of comparisons per byte; the tag-name, attribute-key, unquoted / single-quoted value, end-tag and raw-text-start states and the tag_name() accessor harnesses did not finish within 25 min and are `wip`, i.e. NOT part of the claim (DESIGN 3.4). Trusted: Kani/CBMC; the branch-free UTF-8 validity predicate in the harness.",
         "design": "DESIGN.md §5 C16, §3.4",
     },
